@@ -842,6 +842,7 @@ class Interferogram(RichData):
         """Strip the lateral calibration and revert to pixels."""
         self.dx = 1.
         self.x, self.y = make_xy_grid(self.data.shape, dx=self.dx)
+        self._r, self._t = None, None  # polar coordinates are regenerated from the new x, y on demand
         self._latcaled = False
         return self
 
